@@ -29,6 +29,7 @@ type c16Mempool struct {
 	utxos   []mempool.Utxo
 	utxoErr bool
 	calls   int
+	asked   []string // addresses Utxos was called with
 }
 
 // c16Rate: the answer to the n-th RecommendedFee call (1-based) under the script `r` | `r1/r2` | `x` | `r1/x`
@@ -53,6 +54,7 @@ func (m *c16Mempool) RecommendedFee() (*mempool.Fee, error) {
 	return &mempool.Fee{EconomyFee: r, FastestFee: 1 << 40, MinimumFee: 1, HourFee: 3, HalfHourFee: 9}, nil
 }
 func (m *c16Mempool) Utxos(address string) ([]mempool.Utxo, error) {
+	m.asked = append(m.asked, address)
 	if m.utxoErr {
 		return nil, errors.New("utxo service down")
 	}
@@ -157,6 +159,7 @@ var c16Srv struct {
 	us    []mempool.Utxo
 	rate  string
 	calls int
+	paths []string
 }
 
 func c16Serve(us []mempool.Utxo, rate string) *mempool.MempoolAPI {
@@ -174,11 +177,12 @@ func c16Serve(us []mempool.Utxo, rate string) *mempool.MempoolAPI {
 				fmt.Fprintf(w, `{"fastestFee":1099511627776,"halfHourFee":9,"hourFee":3,"economyFee":%d,"minimumFee":1}`, rr)
 				return
 			}
+			c16Srv.paths = append(c16Srv.paths, r.URL.Path)
 			w.Write([]byte(c16UtxoJSON(c16Srv.us)))
 		}))
 	})
 	c16Srv.mu.Lock()
-	c16Srv.us, c16Srv.rate, c16Srv.calls = us, rate, 0
+	c16Srv.us, c16Srv.rate, c16Srv.calls, c16Srv.paths = us, rate, 0, nil
 	c16Srv.mu.Unlock()
 	return mempool.NewMempoolAPI(c16Srv.srv.URL)
 }
@@ -223,6 +227,9 @@ func init() {
 		if err != nil {
 			return "err"
 		}
+		if len(mp.asked) != 1 || mp.asked[0] != res.Address.String() {
+			return c16ShowTx(tx, used) + "|not-the-bridge-address"
+		}
 		return c16ShowTx(tx, used) + c16Uploaded(up, ps)
 	}
 	// build: the same, but fee and UTXO list come from the real MempoolAPI talking to a loopback server that lists the
@@ -240,6 +247,12 @@ func init() {
 		tx, used, err := c16Exec(api, up).VerifC16RawTx(ps, res)
 		if err != nil {
 			return "err"
+		}
+		c16Srv.mu.Lock()
+		paths := append([]string{}, c16Srv.paths...)
+		c16Srv.mu.Unlock()
+		if len(paths) != 1 || paths[0] != "/api/address/"+res.Address.String()+"/utxo" {
+			return c16ShowTx(tx, used) + "|not-the-bridge-address"
 		}
 		return c16ShowTx(tx, used) + c16Uploaded(up, ps)
 	}
